@@ -22,6 +22,7 @@ type caseT struct {
 	Out  string   `json:"out"` // kind name or "void"
 	Args []sval   `json:"args"`
 	Res  string   `json:"res,omitempty"` // label in resultPool(Out)
+	Seq  *seqDef  `json:"seq,omitempty"` // set when the case only fails as a step of this sequence
 }
 
 func (c caseT) sigString() string {
